@@ -33,8 +33,10 @@ type Eng struct {
 	byName   map[string]*ssa.Function
 	callers  map[*ssa.Function][]CallSite
 
-	boxCache   map[*ssa.Alloc][]ssa.Value
-	reachCache map[[2]ssa.Instruction]bool
+	boxCache      map[*ssa.Alloc][]ssa.Value
+	reachCache    map[[2]ssa.Instruction]bool
+	edgeLitsCache map[[2]interface{}][]Lit
+	eqConstCache  map[string][]string
 
 	allSSA    map[*ssa.Function]bool
 	InlineLog []string               // helpers made transparent (functions absent from the reference tree)
